@@ -66,7 +66,7 @@ def resp_lattice():
     out = []
     kinds = [(st, ["none", "len", "chunked", "trailer", "nomtrailer", "eof"]) for st in ("200", "404")]
     kinds += [(st, ["none"]) for st in ("204", "304")]
-    kinds += [(st, ["none", "len"]) for st in ("301s", "302o", "307r")]
+    kinds += [(st, ["none", "len"]) for st in ("301s", "302o", "302p", "302c", "307r")]
     for st, bodies in kinds:
         for bd in bodies:
             for n in range(len(RESP_CLASSES) + 1):
@@ -98,6 +98,8 @@ CTRL_REQS = [
     req(h="", hs=("ua",)),                                               # no Host
     req(m="POST", hs=(), bd="nomtrailer"),                               # no User-Agent, nominated trailer
     req(m="CONNECT", h="a", hs=("ua",)),                                 # CONNECT to the very authority of the plain requests
+    req(h="aP", hs=("ua",)),                                             # same domain, another port: another origin
+    req(h="aC", hs=("ua",)),                                             # same origin in another letter case
 ]
 CTRL_RESPS = [
     PLAIN_RESP,
@@ -110,9 +112,36 @@ CTRL_RESPS = [
 ]
 ALL_CLOSERS = '{"cclose","cabort","ow","orw"}'
 
+# host spellings (Forwarder.tla HostDef), by family: every spelling of a family may be the first request's host, and
+# the follow-ups are the spellings of the same family (same origin / other port / other case / default port written
+# out or left off / other address) plus another domain
+HOST_FAMILIES = [
+    ["a", "aP", "aC", "aCP", "aN"],
+    ["d", "dE", "dC", "dP"],
+    ["i", "iP", "iO", "iN", "iE"],
+    ["v", "vP", "vC"],
+]
+HOST_OTHER = "b"
+ALL_HOSTS = [h for fam in HOST_FAMILIES for h in fam] + [HOST_OTHER]
 
-def consts(reqs, resps, cap, nreq, nresp, auth, sync, emit, closers=ALL_CLOSERS, constraint="", lattice=False):
-    return dict(Lattice="TRUE" if lattice else "FALSE", QueueCap=cap, ReqDef=msgdef("q", reqs), RespDef=msgdef("s", resps), MaxReq=nreq, MaxResp=nresp,
+
+def host_req(h, **kw):
+    return req(h=h, hs=("ua",), **kw)
+
+
+def host_pairs():
+    """-> (request set, Follow tuple): message k (1-based) is host_req(ALL_HOSTS[k-1]); Follow[k] = messages that may follow
+    when message k was the first one."""
+    idx = {h: k + 1 for k, h in enumerate(ALL_HOSTS)}
+    follow = []
+    for h in ALL_HOSTS:
+        fam = next((f for f in HOST_FAMILIES if h in f), [])
+        follow.append(frozenset(idx[x] for x in fam + [HOST_OTHER]))
+    return [host_req(h) for h in ALL_HOSTS], follow
+
+
+def consts(reqs, resps, cap, nreq, nresp, auth, sync, emit, closers=ALL_CLOSERS, constraint="", lattice=False, follow=()):
+    return dict(Lattice="TRUE" if lattice else "FALSE", Follow=tla(list(follow)), QueueCap=cap, ReqDef=msgdef("q", reqs), RespDef=msgdef("s", resps), MaxReq=nreq, MaxResp=nresp,
                 AuthModes=auth, Closers=closers, Sync="TRUE" if sync else "FALSE",
                 EMIT="ACTION_CONSTRAINT Emit" if emit else "", CONSTRAINT=constraint)
 
@@ -174,6 +203,17 @@ def run(tier, seed, replay):
         jobs.append(("replay_forward_resp", consts(small_reqs[:3], CTRL_RESPS, cap, 2, 3, "{FALSE}", True, True, closers='{"cclose","ow","orw"}'), "graph", dict(max_len=40, workers=4, timeout=6000)))
     else:
         jobs.append(("replay_forward", consts(small_reqs[:6], CTRL_RESPS[:6], cap, 2, 2, "{FALSE}", True, True), "graph", dict(max_len=40, workers=3)))
+    #  (b2) hosts: every spelling as the first request's host x follow-ups within its family (same origin, other port, other
+    #       letter case, default port written out / left off, other address, other domain); three messages, so that what
+    #       follows a host change is covered too
+    hreqs, hfollow = host_pairs()
+    jobs.append(("replay_hosts", consts(hreqs, [PLAIN_RESP], cap, 3 if big else 2, 1, "{FALSE}", True, True, closers=lat, follow=hfollow),
+                 "graph", dict(max_len=40)))
+    #  (b3) redirects whose Location is such a variant of the Host of the request they answer
+    rhosts = ["a", "aC", "d", "dE", "i", "iN", "v"] if big else ["a", "d", "iN", "v"]
+    rresps = [PLAIN_RESP] + [resp(st=st, bd="none") for st in ("301s", "302o", "302p", "302c", "302d", "307r")]
+    jobs.append(("replay_redirect", consts([host_req(h) for h in rhosts], rresps, cap, 2, 2, "{FALSE}", True, True, closers='{"cclose"}',
+                                           follow=[frozenset([k + 1]) for k in range(len(rhosts))]), "graph", dict(max_len=40)))
     #  (c) deep pipelining: queue full, back-pressure, release
     deep_reqs = [PLAIN_REQ, req(m="HEAD", hs=("ua",))]
     jobs.append(("replay_deep", consts(deep_reqs[:1], [PLAIN_RESP, CTRL_RESPS[1]] if big else [PLAIN_RESP], cap, cap + (3 if big else 2),
@@ -196,10 +236,10 @@ def run(tier, seed, replay):
     # (4) simulation with seeded random message sets from the whole lattice: "mixed" (every kind of message and
     #     close, short connections) and "long" (nothing that ends the connection: pipelines of up to 20 requests)
     keep_req = [m for m in rl if not m["cl"]]
-    keep_resp = [m for m in sl if not m["cl"] and m["bd"] != "eof" and m["st"] != "302o"]
+    keep_resp = [m for m in sl if not m["cl"] and m["bd"] != "eof" and not m["st"].startswith("302")]
     for k in range(4 if not big else 16):
         if k % 2 == 0:
-            rs = [PLAIN_REQ] + rnd.sample(rl, 6) + rnd.sample(CTRL_REQS[1:], 3)
+            rs = [PLAIN_REQ] + rnd.sample(rl, 6) + rnd.sample(CTRL_REQS[1:], 3) + [host_req(h) for h in rnd.sample(HOST_FAMILIES[0][1:], 1)]
             ss = [PLAIN_RESP] + rnd.sample(sl, 6) + rnd.sample(CTRL_RESPS[1:], 2)
             c = consts(rs, ss, cap, 20, 24, "{TRUE,FALSE}", True, True)
         else:
